@@ -1025,7 +1025,12 @@ func (db *DB) reWriteData(pendingMergeEntries []*Entry) error {
 			return err
 		}
 	}
-	tx.Commit()
+	if err := tx.Commit(); err != nil {
+		// release the write lock, like DB.managed does
+		tx.Rollback()
+		db.isMerging = false
+		return err
+	}
 	return nil
 }
 
